@@ -36,10 +36,11 @@ type Opts struct {
 	IssuePathPct int // % of option sets with IssuePath (0: 20)
 	TimeLayouts  bool // allow Time.Format(layout) (also allowed by Coercers)
 	PreWeight    int // weight of Preprocess among the node kinds when Pre is allowed (0: 3)
+	EmbedPct     int // % of struct nodes (>= 2 fields) whose destination type reaches every second field through an embedded struct
 }
 
 func DefaultOpts() Opts {
-	return Opts{MaxDepth: 3, MaxFields: 4, CatchPct: 25, DefaultPct: 15, RequiredPct: 45, TestOptsPct: 20, Posts: true, Customs: true, StructTests: true, Tags: true, FailingTests: 15}
+	return Opts{MaxDepth: 3, MaxFields: 4, CatchPct: 25, DefaultPct: 15, RequiredPct: 45, TestOptsPct: 20, Posts: true, Customs: true, StructTests: true, Tags: true, FailingTests: 15, EmbedPct: 12}
 }
 
 var BaseTime = time.Date(2024, 3, 10, 12, 0, 0, 0, time.UTC)
@@ -133,6 +134,9 @@ func (g *G) nodeOfKind(k spec.Kind, depth int) *spec.Node {
 				}
 			}
 			n.Fields = append(n.Fields, f)
+		}
+		if g.O.EmbedPct > 0 && len(n.Fields) >= 2 && g.pct(g.O.EmbedPct) {
+			n.Embed = 1 + g.R.Intn(3)
 		}
 		// extra destination fields the schema does not name
 		n.ExtraFields = []spec.ExtraField{{GoName: "XUntouchedS", Type: reflect.TypeOf("")}, {GoName: "XUntouchedI", Type: reflect.TypeOf(0)}}
